@@ -503,8 +503,20 @@ def freeze(env):
     return tuple(sorted(env.items()))
 
 
+def call_name(call):
+    """callee name, or `<field>` for a call through a record field, `<indirect>` otherwise"""
+    if call[1]:
+        return call[1]
+    ce = strip(call[2])
+    while kind(ce) == "deref":
+        ce = strip(ce[1])
+    if kind(ce) == "mem":
+        return "<%s>" % ce[2]
+    return "<indirect>"
+
+
 def call_key(call):
-    return (call[1] or "<indirect>", call[5], call[6])
+    return (call_name(call), call[5], call[6])
 
 
 CMP = {
